@@ -322,6 +322,26 @@ fn hostile_cases(prgs: &[(T, garble_lang::GarbleProgram)]) -> Result<u64, String
     check_hostile(p, "range literal beyond the element type", Literal::Range(254, 257, UnsignedNumType::U8), None)?;
     check_hostile(p, "array repeat", Literal::ArrayRepeat(Box::new(Literal::NumUnsigned(9, UnsignedNumType::U8)), 3), Some((&arr, V::Seq(vec![V::U(9), V::U(9), V::U(9)]))))?;
     check_hostile(p, "array of wrong length", Literal::Array(vec![Literal::NumUnsigned(9, UnsignedNumType::U8)]), None)?;
+    // text literals that denote no value of the parameter type must be refused by parse_arg (never truncated)
+    let texts: [(T, &[&str]); 6] = [
+        (T::U(8, "u8"), &["256", "256u8", "300u8", "18446744073709551616", "-1", "1u16"]),
+        (T::I(8, "i8"), &["128", "128i8", "-129", "-129i8", "255u8", "18446744073709551615"]),
+        (T::U(16, "u16"), &["65536", "65536u16"]),
+        (T::U(32, "usize"), &["4294967296", "4294967296usize", "4294967301usize", "18446744073709551615usize"]),
+        (T::I(16, "i16"), &["32768", "-32769", "32768i16"]),
+        (T::Bool, &["1", "0", "2"]),
+    ];
+    for (t, lits) in texts.iter() {
+        let p = find(t);
+        for l in lits.iter() {
+            n += 1;
+            match catch_unwind(AssertUnwindSafe(|| p.parse_arg(0, l).map(|a| a.as_bits()))) {
+                Err(_) => return Err(format!("parse_arg panics on the text `{l}` for a parameter of type {}", ty_name(t))),
+                Ok(Ok(bits)) => return Err(format!("the text `{l}` is accepted for a parameter of type {} (encoded as {} bits) although it denotes no value of that type", ty_name(t), bits.len())),
+                Ok(Err(_)) => {}
+            }
+        }
+    }
     Ok(n)
 }
 
